@@ -138,51 +138,64 @@ Hypothesis Hnohist : m_hist root = HNone.
 Variable fuel : nat.
 Hypothesis Hmw : (Z.of_nat fuel < MW)%Z.
 
-Theorem mp11_qrun_ops : forall l rn pend started, qbracketed started l -> quietm pend root rn -> running rn = started ->
+Theorem mp11_qrun_ops : forall l rn mk pend started, qbracketed started l -> quietm2 mk pend root rn -> running rn = started ->
   Forall (fun e => e_ty e <> EV_NONE) pend -> 2 * (length pend + count_enq l) + depth root + 3 <= fuel ->
   Forall2 step_ok (sp_qrun_mp11 (c_pol cf) root (abs rn, pend) l) (run_ops cf root (build cf parents false root) fuel rn l).
 Proof.
-  induction l as [|o t IH]; intros rn pend started Hb Hq Hrun Hu Hf; cbn [sp_qrun_mp11 run_ops]; [constructor|].
+  induction l as [|o t IH]; intros rn mk pend started Hb Hq Hrun Hu Hf; cbn [sp_qrun_mp11 run_ops]; [constructor|].
   cbn [qbracketed] in Hb.
-  destruct o as [val plan|plan|e val plan|e|val plan| | | | | | |]; try contradiction; cbn [sp_qop_mp11 run_op count_enq] in *.
+  destruct o as [val plan|plan|e val plan|e|val plan|val plan| | | | | |]; try contradiction; cbn [sp_qop_mp11 run_op count_enq] in *.
   - (* start *)
     destruct plan; [|contradiction]. destruct started; [contradiction|]. rewrite abs_act.
-    destruct (sim_run_m' _ rn val _ (mp11_start_q cf Hbe parents Hflat val Hresets root Hcore Hnohist pend fuel rn Hq Hrun ltac:(lia)))
+    destruct (sim_run_m' _ rn val _ (mp11_start_q cf Hbe parents Hflat val Hresets root Hcore Hnohist mk pend fuel rn Hq Hrun ltac:(lia)))
       as (rn' & items & E & Hok' & Hr' & Hs).
     rewrite E. rewrite <- Hs. cbn [fst]. constructor.
     + unfold step_ok. cbn [fst snd]. split; [apply snapshot_abs | reflexivity].
-    + apply (IH rn' [] true); [exact Hb | apply quietm_nil; exact Hok' | exact Hr' | constructor | cbn [length]; lia].
+    + apply (IH rn' None [] true); [exact Hb | apply quietm_nil; exact Hok' | exact Hr' | constructor | cbn [length]; lia].
   - (* stop *)
     destruct plan; [|contradiction]. destruct started; [|contradiction].
-    destruct (sim_run_m' _ rn [] _ (mp11_stop_q cf Hbe parents Hflat [] Hresets root Hcore pend fuel rn Hq Hrun))
+    destruct (sim_run_m' _ rn [] _ (mp11_stop_q cf Hbe parents Hflat [] Hresets root Hcore mk pend fuel rn Hq Hrun))
       as (rn' & items & E & Hq' & Hr' & Hs).
     rewrite E. rewrite <- Hs. cbn [fst]. constructor.
     + unfold step_ok. cbn [fst snd]. split; [apply snapshot_abs | reflexivity].
-    + apply (IH rn' pend false); [exact Hb | exact Hq' | exact Hr' | exact Hu | lia].
+    + apply (IH rn' mk pend false); [exact Hb | exact Hq' | exact Hr' | exact Hu | lia].
   - (* process_event *)
     destruct plan; [|contradiction]. destruct started; [|contradiction]. destruct Hb as (He & Hb).
-    pose proof (mp11_process_event_q cf Hbe parents Hflat val Hresets root Hcore pend fuel e rn Hq Hrun ltac:(lia) ltac:(lia) Hmw He Hu) as Hs.
+    pose proof (mp11_process_event_q cf Hbe parents Hflat val Hresets root Hcore mk pend fuel e rn Hq Hrun ltac:(lia) ltac:(lia) Hmw He Hu) as Hs.
     destruct (Hs (Glob [] 0 [] val [] 0)) as (code & rn' & items & E & Hok' & Hr' & Hres).
     { repeat split. }
     unfold run_m, bind, direct_code. rewrite Hbe. rewrite E. cbn. rewrite app_nil_r. cbn zeta in Hres.
     destruct (sp_drain (c_pol cf) root val pend (o_conf (sp_process (c_pol cf) root e val (abs rn)))) as [i c'].
     destruct Hres as (-> & Ha & Hc). cbn [fst]. constructor.
     + unfold step_ok. cbn [fst snd]. split; [rewrite snapshot_abs, Ha; reflexivity|]. exists code. auto.
-    + rewrite <- Ha. apply (IH rn' [] true); [exact Hb | apply quietm_nil; exact Hok' | exact Hr' | constructor | cbn [length]; lia].
+    + rewrite <- Ha. apply (IH rn' None [] true); [exact Hb | apply quietm_nil; exact Hok' | exact Hr' | constructor | cbn [length]; lia].
   - (* enqueue_event *)
     destruct Hb as (He & Hb).
-    destruct (sim_run_m' _ rn [] _ (mp11_enqueue_q cf Hbe parents [] root pend e rn Hq)) as (rn' & items & E & Hq' & Hr' & -> & Ha).
+    destruct (sim_run_m' _ rn [] _ (mp11_enqueue_q cf Hbe parents [] root mk pend e rn Hq)) as (rn' & items & E & Hq' & Hr' & -> & Ha).
     rewrite E. cbn [fst rev]. constructor.
     + unfold step_ok. cbn [fst snd]. split; [rewrite snapshot_abs, Ha; reflexivity | reflexivity].
-    + rewrite <- Ha. apply (IH rn' (pend ++ [e]) started); [exact Hb | exact Hq' | congruence | apply Forall_app; split; [exact Hu | constructor; [exact He | constructor]] |].
+    + rewrite <- Ha. apply (IH rn' mk (pend ++ [e]) started); [exact Hb | exact Hq' | congruence | apply Forall_app; split; [exact Hu | constructor; [exact He | constructor]] |].
       rewrite app_length. cbn [length]. lia.
-  - (* execute_queued_events *)
+  - (* process_event_pool *)
     destruct plan; [|contradiction]. destruct started; [|contradiction].
-    destruct (sim_run_m' _ rn val _ (mp11_drain_q cf Hbe parents Hflat val Hresets root Hcore pend fuel rn Hq Hrun ltac:(lia) ltac:(lia) Hmw Hu))
+    destruct (sim_run_m' _ rn val _ (mp11_drain_q cf Hbe parents Hflat val Hresets root Hcore mk pend fuel rn Hq Hrun ltac:(lia) ltac:(lia) Hmw Hu))
       as (rn' & items & E & Hok' & Hr' & Hs).
     rewrite E. destruct (sp_drain (c_pol cf) root val pend (abs rn)) as [i c']. inversion Hs; subst. cbn [fst]. constructor.
     + unfold step_ok. cbn [fst snd]. split; [rewrite snapshot_abs; reflexivity | reflexivity].
-    + apply (IH rn' [] true); [exact Hb | apply quietm_nil; exact Hok' | exact Hr' | constructor | cbn [length]; lia].
+    + apply (IH rn' None [] true); [exact Hb | apply quietm_nil; exact Hok' | exact Hr' | constructor | cbn [length]; lia].
+  - (* process_event_pool(1) *)
+    destruct plan; [|contradiction]. destruct started; [|contradiction]. destruct pend as [|e pend].
+    + destruct (sim_run_m' _ rn val _ (mp11_drain1_nil cf Hbe parents val root mk fuel rn Hq Hrun ltac:(lia)))
+        as (rn' & items & E & Hq' & Hr' & -> & Ha).
+      rewrite E. cbn [fst rev]. constructor.
+      * unfold step_ok. cbn [fst snd]. split; [rewrite snapshot_abs, Ha; reflexivity | reflexivity].
+      * rewrite <- Ha. apply (IH rn' None [] true); [exact Hb | exact Hq' | exact Hr' | constructor | cbn [length] in *; lia].
+    + inversion Hu as [|? ? He Hu']; subst.
+      destruct (sim_run_m' _ rn val _ (mp11_drain1_q cf Hbe parents Hflat val Hresets root Hcore mk e pend fuel rn Hq Hrun ltac:(lia) ltac:(lia) He))
+        as (rn' & items & E & (mk' & Hq') & Hr' & -> & Ha).
+      rewrite E. cbn [fst]. constructor.
+      * unfold step_ok. cbn [fst snd]. split; [rewrite snapshot_abs, Ha; reflexivity | reflexivity].
+      * rewrite <- Ha. apply (IH rn' mk' pend true); [exact Hb | exact Hq' | exact Hr' | exact Hu' | cbn [length] in *; lia].
 Qed.
 End Mp11Queue.
 
@@ -192,7 +205,7 @@ Theorem mp11_queue_is_spec : forall cf md l,
   Forall2 step_ok (sp_qrun_mp11 (c_pol cf) (md_root md) (abs (init_rnode (md_root md)), []) l) (run cf md l).
 Proof.
   intros cf md l HB Hflat Hcore Hh Hres Hb Hf. unfold run.
-  apply (mp11_qrun_ops cf HB (md_parents md) Hflat Hres (md_root md) Hcore Hh default_fuel ltac:(reflexivity) l (init_rnode (md_root md)) [] false Hb).
+  apply (mp11_qrun_ops cf HB (md_parents md) Hflat Hres (md_root md) Hcore Hh default_fuel ltac:(reflexivity) l (init_rnode (md_root md)) None [] false Hb).
   - apply quietm_nil. apply okm_init.
   - destruct (md_root md); reflexivity.
   - constructor.
@@ -283,7 +296,7 @@ Definition ex_queue_ops : list op :=
 (* a history backmp11 is specified on (start / stop alternate), with events stored while stopped and while started *)
 Definition ex_queue_ops_mp11 : list op :=
   [OEnqueue (Evt 4 1); OStart [] []; OEnqueue (Evt 4 2); OEnqueue (Evt 5 3); OProcess (Evt 6 4) [10] []; OEnqueue (Evt 6 5);
-   ODrain [4] []; OStop []; OEnqueue (Evt 4 6); OStart [1] []; OEnqueue (Evt 4 7); ODrain [1] []].
+   ODrain [4] []; OStop []; OEnqueue (Evt 4 6); OStart [1] []; OEnqueue (Evt 4 7); OEnqueue (Evt 5 8); ODrain1 [1] []; ODrain1 [2] []; ODrain1 [] []].
 
 (* any two backmp11 configurations (compile policy, dispatch strategy), the same switch policy *)
 Theorem mp11_same_queue_behaviour : forall cf1 cf2 md l,
